@@ -8,6 +8,7 @@ import Driver.Parse
 import Driver.Select
 import Driver.Fold
 import Driver.Project
+import Driver.PlanCheck
 namespace Driver
-def handlers : List (List String → Option String) := [handleScan, handlePlans, handleOrder, handleAggr, handleEval, handleParse, handleSelect, handleFold, handleProject]
+def handlers : List (List String → Option String) := [handleScan, handlePlans, handleOrder, handleAggr, handleEval, handleParse, handleSelect, handleFold, handleProject, handlePlanCheck]
 end Driver
